@@ -7,6 +7,7 @@ import FP.Model.Arith
 import FP.Lemmas.Int32
 import FP.Lemmas.Arith
 import FP.Lemmas.Dec
+import FP.Model.Eval
 namespace FP.Props.C08
 open FP FP.Go FP.Model FP.Lemmas FP.Gen.IntArith
 
@@ -287,5 +288,59 @@ example : arithExpr .add (.int 2147483647) (.int 1) = .ok [] := by decide
 example : arithExpr .floorDiv (.int (-7)) (.int 2) = .ok [.int (-3)] := by decide
 example : arithExpr .mod (.int (-7)) (.int 2) = .ok [.int (-1)] := by decide
 example : arithExpr .div (.int 1) (.int 0) = .ok [] := by decide
+
+/-! ### `round([precision])` in the assembled evaluator (FP.Model.Eval) -/
+
+section Round
+open FP.Model.Eval
+
+/-- rounding an Integer is exact: the Decimal of the same value, whatever the precision is -/
+theorem round_int_exact (p i : Int) : roundVal p (.int i) = .ok [.dec ⟨i, 0⟩] := rfl
+
+/-- a Decimal that has no digit beyond the requested precision is returned as it is — the same value and the
+    same representation (nothing is padded, however large the precision is) -/
+theorem round_noop (p : Int) (d : Dec) (h : -d.exp ≤ p) : roundVal p (.dec d) = .ok [.dec d] := by
+  simp [roundVal, roundTo, h]
+
+/-- rounding never invents digits: the result has at most `p` decimal places (p ≥ 0) -/
+theorem round_places (p : Int) (d : Dec) (hp : 0 ≤ p) : -(roundTo p d).exp ≤ p := by
+  unfold roundTo
+  split
+  · assumption
+  · rename_i h
+    unfold Dec.round
+    split
+    · omega
+    · have hr : (d.rescale (-p - 1)).exp = -p - 1 := by
+        unfold Dec.rescale
+        split
+        · assumption
+        · split <;> rfl
+      show -((d.rescale (-p - 1)).exp + 1) ≤ p
+      omega
+
+/-- on whole expressions: `round()` / `round(p)` of no item is no item, of several items an error; a negative
+    precision is an error and never a value; the precision must be a single Integer -/
+theorem expr_round_cardinality (env : Env) (a : E) :
+    eval env (.fn "round" .argNil) [] = .ok [] ∧ eval env (.fn "round" (.argCons a .argNil)) [] = .ok [] ∧
+    (∀ x y r, eval env (.fn "round" .argNil) (x :: y :: r) = .err "not-singleton") ∧
+    (∀ x y r, eval env (.fn "round" (.argCons a .argNil)) (x :: y :: r) = .err "not-singleton") := by
+  simp [eval, isClockFn, apply0, apply1]
+
+theorem expr_round_negative_precision (env : Env) (a : E) (v : Val) (p : Int) (hp : p < 0)
+    (ha : eval env a [v] = .ok [.int p]) :
+    eval env (.fn "round" (.argCons a .argNil)) [v] = .err "negative-precision" := by
+  simp [eval, apply1, ha, Res.bind, toInt32, hp]
+
+/-- an empty precision argument is an error, never the default precision (cf. C07: no fabricated value) -/
+theorem expr_round_empty_precision (env : Env) (a : E) (v : Val) (ha : eval env a [v] = .ok []) :
+    eval env (.fn "round" (.argCons a .argNil)) [v] = .err "not-singleton" := by
+  simp [eval, apply1, ha, Res.bind, toInt32]
+
+example : roundVal 1 (.dec ⟨125, -2⟩) = .ok [.dec ⟨13, -1⟩] := by decide +kernel
+example : roundVal 1 (.dec ⟨-125, -2⟩) = .ok [.dec ⟨-13, -1⟩] := by decide +kernel
+example : roundVal 0 (.dec ⟨25, -1⟩) = .ok [.dec ⟨3, 0⟩] := by decide +kernel
+
+end Round
 
 end FP.Props.C08
